@@ -190,6 +190,18 @@ def build_pool(ctx, index):
     ops.append({"kind": "cache-envelope", "eb": 16, "input": P("parent.suit"), "omit": None, "dep": "#app", "family": "cache"})
     ops.append({"kind": "cache-envelope", "eb": 64, "input": P("parent.suit"), "omit": "#nomatch", "dep": "#a.*", "family": "cache"})
     ops.append({"kind": "cache-envelope", "eb": 8, "input": P("parent.suit"), "omit": "#p", "dep": "#app", "family": "cache"})
+    # an envelope level with several plain payloads AND a dependency, taken apart with --dependency-regex (the order of what is left matters)
+    mdesc = _desc_min(16, "nordicsemi.com", "nRF54H20_sample_root", {"suit-integrated-payloads": {"#p1": "01", "#zeta": "0202", "#alpha": "030303", "#m": "04"},
+                                                                       "suit-integrated-dependencies": {"#app": P("child.suit"), "#rad.suit": P("child.suit")}})
+    sut.dump_desc(mdesc, P("multi.json"))
+    prep.append({"kind": "create", "input": P("multi.json"), "save_as": {"out.suit": P("multi.suit")}})
+    ops.append({"kind": "cache-envelope", "eb": 16, "input": P("multi.suit"), "omit": None, "dep": "#app", "family": "cache"})
+    ops.append({"kind": "cache-envelope", "eb": 4, "input": P("multi.suit"), "omit": "#m", "dep": "#rad\\.suit", "family": "cache"})
+    # hierarchical parses of envelopes whose dependencies have different names / numbers (what one parse shows must not reach the next)
+    for i in (0, 1):
+        prep.append({"kind": "create", "input": P(f"nested{i}.{'json' if i else 'yaml'}"), "save_as": {"out.suit": P(f"nested{i}.suit")}})
+    for inp, fmt in (("multi.suit", "yaml"), ("nested0.suit", "yaml"), ("nested1.suit", "yaml"), ("parent.suit", "yaml"), ("nested1.suit", "json"), ("multi.suit", "json")):
+        ops.append({"kind": "parse", "input": P(inp), "fmt": fmt, "hierarchy": True, "family": "parse"})
     # nesting given inline: valid (depth 2 and 3) ...
     leaf = _desc_min(11, "nordicsemi.com", "nRF54H20_sample_rad", {"suit-integrated-payloads": {"#l": "beef"}})
     mid = _desc_min(12, "nordicsemi.com", "nRF54H20_sample_app", {"suit-integrated-dependencies": {"#leaf": leaf}})
